@@ -6,8 +6,10 @@ VERIF = os.path.dirname(HERE)
 D = os.path.join(VERIF, 'seeded_harmless')
 ids = sys.argv[1:] or sorted(f[:-5] for f in os.listdir(D) if f.endswith('.diff'))
 rows = []
-for s in ids:
-    p = subprocess.run([sys.executable, os.path.join(HERE, 'seedtest.py'), os.path.join(D, s + '.diff')], capture_output=True, text=True)
+from concurrent.futures import ThreadPoolExecutor
+def one(s):
+    return s, subprocess.run([sys.executable, os.path.join(HERE, 'seedtest.py'), os.path.join(D, s + '.diff')], capture_output=True, text=True)
+for s, p in ThreadPoolExecutor(int(os.environ.get('SEED_JOBS', '1'))).map(one, ids):
     res, how = {}, {}
     cur = None
     for l in p.stdout.split('\n'):
